@@ -178,7 +178,7 @@ var scanToFscan = map[string]string{"Scan": "Fscan", "Scanln": "Fscanln", "Scanf
 var osVars = map[string]string{"Stdout": "Stdout", "Stderr": "Stderr", "Stdin": "Stdin", "Args": "Args",
 	"File": "OSFile"} // (the type os.File: the simulated streams and files are values of verifsimrt.OSFile)
 var osFuncs = map[string]string{
-	"Exit": "Exit", "ReadFile": "ReadFile", "Open": "Open", "Stat": "Stat", "Lstat": "Lstat",
+	"Exit": "Exit", "ReadFile": "ReadFile", "Open": "Open", "OpenFile": "OpenFile", "Create": "Create", "Stat": "Stat", "Lstat": "Lstat",
 	"Getpid": "Getpid", "Getppid": "Getppid", "Hostname": "Hostname",
 	"Getenv": "Getenv", "LookupEnv": "LookupEnv", "Environ": "Environ",
 }
@@ -188,7 +188,7 @@ var timeFuncs = map[string]string{"Now": "Now", "Since": "Since", "Until": "Unti
 
 // os functions that touch the real host and that the simulator does not model
 var osUnmodelled = map[string]bool{
-	"Create": true, "OpenFile": true, "WriteFile": true, "Remove": true, "RemoveAll": true, "Mkdir": true,
+	"WriteFile": true, "Remove": true, "RemoveAll": true, "Mkdir": true,
 	"MkdirAll": true, "ReadDir": true, "Getwd": true, "Chdir": true,
 	"Setenv": true, "Unsetenv": true, "Executable": true, "UserHomeDir": true, "TempDir": true, "Getuid": true,
 	"StartProcess": true, "Pipe": true, "Rename": true,
